@@ -6,6 +6,7 @@
 
 extern crate tlsh;
 
+mod allocstream;
 mod cmpstream;
 mod codecstream;
 #[cfg(feature = "easy")]
@@ -17,6 +18,9 @@ mod serdestream;
 mod util;
 
 use std::io::Write;
+
+#[global_allocator]
+static GLOBAL: allocstream::Counting = allocstream::Counting;
 
 fn main() {
     let args: Vec<String> = std::env::args().collect();
@@ -98,6 +102,7 @@ fn main() {
         "cmpstr" => easystream::stream_cmpstr(&mut out, seed, budget),
         #[cfg(feature = "serde")]
         "serde" => serdestream::stream_serde(&mut out, seed, budget),
+        "alloc" => allocstream::stream_alloc(&mut out, seed, budget),
         "kat" => genstream::stream_kat(&mut out, &format!("{}/kat.txt", corpus)),
         x => {
             eprintln!("unknown stream {}", x);
